@@ -364,6 +364,19 @@ def run_instance(inst):
             except BaseException as e:
                 out["solve_exc"] = type(e).__name__
                 out["solve_msg"] = str(e)[:160]
+        if "resolve" in ops:      # the caller calls solve() once more on the same object, this time without injected faults
+            out["retry_at"] = len(_trace)
+            _faults.clear()
+            try:
+                r = model.solve()
+                out["solve_ret"] = 1 if r is True else (0 if r is False else NONE)
+                out["solve_ret_type"] = tname(r)
+            except SystemExit:
+                out["solve_exc"] = "SystemExit"
+                out["process_exit"] = True
+            except BaseException as e:
+                out["solve_exc"] = type(e).__name__
+                out["solve_msg"] = str(e)[:160]
         syn = synthetic_names(model)
         try:
             out["solved"] = bool(model.is_solved())
